@@ -85,7 +85,7 @@ func c09Main(e *Env) (*res.Result, error) {
 			// the query has none, so the client cannot authenticate such an operation at all)
 			var names []string
 			for _, k := range [][]string{{"bearer"}, {"apikey-header"}, {"bearer", "apikey-header"}, {"apikey-header", "apikey-header"}}[rapid.IntRange(0, 3).Draw(t, "scheme_set")] {
-				n := c.PlainName("sec", "scheme")
+				n := c.SchemeName("sec", "scheme")
 				c.Comps().SecuritySchemes = mapSet(c.Comps().SecuritySchemes, n, c.SchemeOf(k, n))
 				names = append(names, n)
 			}
